@@ -27,8 +27,23 @@ def pfx(m):
     return "p" + m
 
 
-def ref_text(home, r):
-    return r["n"] if r["m"] == home else pfx(r["m"]) + ":" + r["n"]
+def imp_pfx(inst, unit, t):
+    """Prefix under which `unit` imports module t (alias = spelling chosen by the instance)."""
+    for u, x, p in inst.get("alias", []):
+        if u == unit and x == t:
+            return p
+    return pfx(t)
+
+
+def ref_text(inst, home, r, src):
+    """A reference written in module `home`.  A reference to the same module is spelled as the instance says:
+    unprefixed, with the module's own prefix, or mixed (per link: by the name of the referring definition,
+    for data nodes by the kind)."""
+    if r["m"] != home:
+        return imp_pfx(inst, home, r["m"]) + ":" + r["n"]
+    sp = inst.get("spell", "u")
+    own = sp == "o" or (sp == "mix" and src in ("a", "c", "typedef", "feature"))
+    return (pfx(home) + ":" if own else "") + r["n"]
 
 
 def render_c11(inst):
@@ -40,7 +55,7 @@ def render_c11(inst):
     def def_lines(h, m, ind):
         L = []
         for d in sorted((d for d in inst["defs"] if d["home"] == h), key=lambda d: (d["k"], d["n"])):
-            refs = sorted(ref_text(m, r) for r in d["refs"])
+            refs = sorted(ref_text(inst, m, r, d["n"]) for r in d["refs"])
             if d["k"] == "feature":
                 L.append(ind + ("feature %s {%s }" % (d["n"], "".join(" if-feature %s;" % r for r in refs)) if refs else "feature %s;" % d["n"]))
             elif d["k"] == "identity":
@@ -58,7 +73,7 @@ def render_c11(inst):
     def root_lines(h, m, ind):
         L = []
         for r in sorted((r for r in inst["roots"] if r["home"] == h), key=lambda r: (r["k"], r["n"], r["m"])):
-            rt = ref_text(m, r)
+            rt = ref_text(inst, m, r, r["k"])
             if r["k"] == "grouping":
                 L.append(ind + "uses %s;" % rt)
             elif r["k"] == "typedef":
@@ -71,11 +86,24 @@ def render_c11(inst):
                 L.append(ind + "leaf rf%s { if-feature %s; type string; }" % (r["n"], rt))
         return L
 
+    def aug_lines(u):
+        """augments written in unit u (a module or a submodule); its own module's container is named unprefixed
+        or by the own prefix, as the instance spells local references"""
+        L = []
+        for a in sorted(inst["augs"], key=lambda a: (a["m"], a["t"], a["n"])):
+            if a["m"] == u:
+                if a["t"] == subs.get(u, u):
+                    p = pfx(a["t"]) + ":" if inst.get("spell", "u") != "u" else ""
+                else:
+                    p = imp_pfx(inst, u, a["t"]) + ":"
+                L.append(' augment "/%st%s/%sk%s" { leaf x%s { type string; } }' % (p, a["t"], p, a["n"], u))
+        return L
+
     for m in sorted(inst["mods"]):
         L = ["module %s {" % m, ' namespace "urn:%s";' % m, " prefix %s;" % pfx(m)]
         for a, t in sorted(inst["imp"]):
             if a == m:
-                L.append(" import %s { prefix %s; }" % (t, pfx(t)))
+                L.append(" import %s { prefix %s; }" % (t, imp_pfx(inst, m, t)))
         for u, s in sorted(inst["inc"]):
             if u == m:
                 L.append(" include %s;" % s)
@@ -91,16 +119,13 @@ def render_c11(inst):
             L += def_lines(h, m, "  ")
             L += root_lines(h, m, "  ")
             L.append(" }")
-        for a in sorted(inst["augs"], key=lambda a: (a["m"], a["t"], a["n"])):
-            if a["m"] == m:
-                p = pfx(a["t"])
-                L.append(' augment "/%s:t%s/%s:k%s" { leaf x%s { type string; } }' % (p, a["t"], p, a["n"], m))
+        L += aug_lines(m)
         for d in sorted(inst["devs"], key=lambda d: (d["m"], d["t"], d["n"], d["how"])):
             if d["m"] == m:
-                p = pfx(d["t"])
+                p = imp_pfx(inst, m, d["t"])
                 base = "/%s:t%s/%s:k%s" % (p, d["t"], p, d["n"])
                 if d["how"] == "nsx":
-                    L.append(' deviation "%s/%s:x%s" { deviate not-supported; }' % (base, pfx(d["by"]), d["by"]))
+                    L.append(' deviation "%s/%s:x%s" { deviate not-supported; }' % (base, imp_pfx(inst, m, d["by"]), d["by"]))
                 elif d["how"] == "ns":
                     L.append(' deviation "%s/%s:l%s" { deviate not-supported; }' % (base, p, d["n"]))
                 else:
@@ -110,11 +135,15 @@ def render_c11(inst):
     for s in sorted(subs):
         b = subs[s]
         L = ["submodule %s {" % s, " belongs-to %s { prefix %s; }" % (b, pfx(b))]
+        for a, t in sorted(inst["imp"]):
+            if a == s:
+                L.append(" import %s { prefix %s; }" % (t, imp_pfx(inst, s, t)))
         for u, t in sorted(inst["inc"]):
             if u == s:
                 L.append(" include %s;" % t)
         L.append(" typedef t%s { type string; }" % s)
         L.append(" container c%s { leaf l { type string; } }" % s)
+        L += aug_lines(s)
         L.append("}")
         mods.append(dict(name=s, file=s + ".yang", text="\n".join(L) + "\n"))
     return mods
@@ -300,7 +329,7 @@ def run_c11(ctx):
         cases.append(dict(id=i, mods=render_c11(v["inst"]), xp=False, off=sorted(v["inst"]["off"])))
     cin, cout = ctx.path("c11_cases.ndjson"), ctx.path("c11_res.ndjson")
     write_ndjson(cin, cases)
-    K = 8 if quick else 40
+    K = 8 if quick else 24
     ctx.run_bin("cc", ["run", "-in", cin, "-out", cout, "-k", str(K), "-workers", "14"], timeout=2400)
     res = read_ndjson(cout)
     if len(res) != len(cases):
@@ -344,7 +373,8 @@ def run_c11(ctx):
     def sig_of(v, what, got):
         I = v["inst"]
         return dict(site="compile", fam=I["fam"], shape=re.sub(r"-no(import|module)$", "", I["shape"]) if I["fam"] in KINDS else "",
-                    what=what, want=v["verdict"], got=got, defects="|".join(sorted(v["defects"])))
+                    what=what, want=v["verdict"], got=got, defects="|".join(sorted(v["defects"])), spell=I.get("spell", "u"),
+                    scoped=any("." in x["home"] for x in I["defs"] + I["roots"]))
 
     seen = set()
     for f in fails:
@@ -366,7 +396,7 @@ def run_c11(ctx):
     # replay: the compiled schema is the spec's schema
     nschema = 0
     for v, c, o in keep:
-        if v["verdict"] == "ok" and v["judgeSchema"] and o["runs"] and o["runs"][0]["verdict"] == "ok" and (v and c["id"]) not in seen:
+        if v["verdict"] == "ok" and v["judgeSchema"] and v["judgeVerdict"] and o["runs"] and o["runs"][0]["verdict"] == "ok" and (v and c["id"]) not in seen:
             nschema += 1
             real = project(json.loads(json.dumps(o["first"])))
             if not same_schema(spec_nodes(v["schema"]), real):
@@ -448,10 +478,13 @@ def render_c15(vec):
     def uses_of(i, u, t, name):
         """The uses statement copying the node of statement i, with the musts that refine adds to it."""
         ref = [(k, e) for k, e in extras.get(i, []) if e["place"] == "refine-on"]
-        if not ref:
+        whn = [(k, e) for k, e in extras.get(i, []) if e["place"] == "uses-when"]
+        if not ref and not whn:
             return [("  uses %s%s;" % (pf(u, t), name), None)]
-        return [("  uses %s%s {" % (pf(u, t), name), None), ("   refine x%d {" % i, [(k, "parent") for k, _ in ref])] \
-               + [('    must "%s";' % e["text"], (k, "expr")) for k, e in ref] + [("   }", None), ("  }", None)]
+        L = [("  uses %s%s {" % (pf(u, t), name), [(k, "parent") for k, _ in whn])] + [('   when "%s";' % e["text"], (k, "expr")) for k, e in whn]
+        if ref:
+            L += [("   refine x%d {" % i, [(k, "parent") for k, _ in ref])] + [('    must "%s";' % e["text"], (k, "expr")) for k, e in ref] + [("   }", None)]
+        return L + [("  }", None)]
 
     for i, s in enumerate(vec["stmts"], 1):
         T, U, V, place = s["T"], s["U"], s["V"], s["place"]
@@ -477,7 +510,9 @@ def render_c15(vec):
             groupings[V] += [(" grouping h%d { uses %sg%d; }" % (i, pf(V, T), i), None)]
             body[U].append(("  uses %sh%d;" % (pf(U, V), i), None))
         elif place == "augment":
-            augments[T] += [(' augment "/%st%s" {' % (pf(T, U), U), None)] + leaf(i, s, "  ") + [(" }", None)]
+            whn = [(k, e) for k, e in extras.get(i, []) if e["place"] == "augment-when"]
+            augments[T] += [(' augment "/%st%s" {' % (pf(T, U), U), [(k, "parent") for k, _ in whn])] \
+                           + [('  when "%s";' % e["text"], (k, "expr")) for k, e in whn] + leaf(i, s, "  ") + [(" }", None)]
         elif place in ("typedef-local", "typedef-cross"):
             typedefs[T] += [(" typedef td%d {" % i, (i, "grand")), ("  type leafref {", (i, "parent")), ('   path "%s";' % s["text"], (i, "expr")),
                             ("  }", None), (" }", None)]
@@ -556,8 +591,12 @@ def run_c15(ctx):
                 node = "x%d" % (s.get("on", 0) or i)
                 nsame = sum(1 for j, q in enumerate(v["stmts"], 1) if q["kind"] == s["kind"] and "x%d" % (q.get("on", 0) or j) == node)
                 xs = [(n, x) for n, x in enumerate(o["xps"]) if x["kind"] == s["kind"] and x["path"].rsplit(":", 1)[-1] == node and n not in taken]
-                if nsame > 1:          # several statements of the kind on one node: each machine is told by its source text
+                if nsame > 1:          # several statements of the kind on one node: each machine is told by its source text,
+                    # and among machines of one text (two statements written in different units) by the namespaces expected
                     xs = [(n, x) for n, x in xs if x["expr"] == s["text"]]
+                    want = ["%s %s" % (nm["ns"], nm["l"]) for nm in s["names"]]
+                    fit = lambda x: len(x["names"]) == len(want) and all(w.startswith("* ") or w == g for w, g in zip(want, x["names"]))
+                    xs.sort(key=lambda nx: not fit(nx[1]))
                 if not xs and s["observable"]:
                     missing.append(i)
                 for n, x in xs[:1]:
